@@ -15,6 +15,36 @@ func init() { register("C14", c14) }
 // wgOf returns the allocation a *sync.WaitGroup operand denotes (through closure free variables).
 func wgOf(v ssa.Value) ssa.Value {
 	v = core.Norm(v)
+	// a field of a parameter object (go pass.process(...) with pass.done = &wg): what was stored into that field
+	var obj ssa.Value
+	field := -1
+	switch x := v.(type) {
+	case *ssa.Field:
+		obj, field = x.X, x.Field
+	case *ssa.UnOp:
+		if fa, ok := x.X.(*ssa.FieldAddr); ok && x.Op == token.MUL {
+			obj, field = fa.X, fa.Field
+		}
+	}
+	if field >= 0 {
+		if al := structOrigin(obj, 0); al != nil {
+			var stored ssa.Value
+			n := 0
+			for _, rf := range *al.Referrers() {
+				if fa, ok := rf.(*ssa.FieldAddr); ok && fa.Field == field {
+					for _, r2 := range *fa.Referrers() {
+						if st, ok := r2.(*ssa.Store); ok && st.Addr == ssa.Value(fa) {
+							stored = st.Val
+							n++
+						}
+					}
+				}
+			}
+			if n == 1 {
+				return wgOf(stored)
+			}
+		}
+	}
 	if p, ok := v.(*ssa.Parameter); ok {
 		// the goroutine body is a named function: the WaitGroup is what the go statement passes for this parameter
 		body := p.Parent()
@@ -50,6 +80,72 @@ func wgOf(v ssa.Value) ssa.Value {
 		}
 	}
 	return v
+}
+
+// structOrigin: the local struct variable a struct value (or the address of a spilled copy of it) was copied from,
+// looking through loads, whole-struct copies into spill slots, parameters of goroutine bodies and captured variables.
+func structOrigin(v ssa.Value, depth int) *ssa.Alloc {
+	if v == nil || depth > 6 {
+		return nil
+	}
+	switch x := v.(type) {
+	case *ssa.Alloc:
+		// a spill slot filled once with a whole value: follow the value; otherwise this is the variable itself
+		var whole []ssa.Value
+		fieldStores := false
+		for _, rf := range *x.Referrers() {
+			switch y := rf.(type) {
+			case *ssa.Store:
+				if y.Addr == ssa.Value(x) {
+					whole = append(whole, y.Val)
+				}
+			case *ssa.FieldAddr:
+				for _, r2 := range *y.Referrers() {
+					if st, ok := r2.(*ssa.Store); ok && st.Addr == ssa.Value(y) {
+						fieldStores = true
+					}
+				}
+			}
+		}
+		if len(whole) == 1 && !fieldStores {
+			if o := structOrigin(whole[0], depth+1); o != nil {
+				return o
+			}
+		}
+		return x
+	case *ssa.UnOp:
+		if x.Op == token.MUL {
+			return structOrigin(x.X, depth+1)
+		}
+	case *ssa.Parameter:
+		body := x.Parent()
+		for i, p := range body.Params {
+			if p != x {
+				continue
+			}
+			for _, g := range goStatementsOf(body) {
+				args := g.Call.Args
+				if i < len(args) {
+					return structOrigin(args[i], depth+1)
+				}
+			}
+		}
+	case *ssa.FreeVar:
+		fn := x.Parent()
+		for i, fv := range fn.FreeVars {
+			if fv != x || fn.Parent() == nil {
+				continue
+			}
+			for _, b := range fn.Parent().Blocks {
+				for _, in := range b.Instrs {
+					if mc, ok := in.(*ssa.MakeClosure); ok && mc.Fn == ssa.Value(fn) && i < len(mc.Bindings) {
+						return structOrigin(mc.Bindings[i], depth+1)
+					}
+				}
+			}
+		}
+	}
+	return nil
 }
 
 // Fanout is a recognised `for ... { go func(x){...}(elem) }` construct.
